@@ -52,6 +52,7 @@ def check_case(case, ctr):
         scratch = ctx.relations(include_unary=unary)
         del scratch[:]                      # a returned list is the caller's to change
         rel = ctx.relations(include_unary=unary)
+        case.keep.append(rel)               # stays referenced while the next contexts are examined
         ctr['calls'] += 2
         got = [(r.kind, r.left, r.right if r.__class__.binary else None) for r in rel]
         if sorted(got, key=repr) != sorted(exp, key=repr):
@@ -105,7 +106,7 @@ def _printed(rel):
 
 
 def run_shard(shard, tier):
-    return e1.run_shard_generic(shard, tier, ID, check_case)
+    return e1.run_shard_generic(shard, tier, ID, check_case, variants=('used',))
 
 
 def main(tier):
